@@ -196,7 +196,7 @@ def empty(slice_i, n):
         yield {"model": spec, "points": None, "obj": []}
 
 def parts(tier):
-    return [Part("empty0", enumerate_cases=(lambda t: empty(0, 1)), check=check, time_quick=120.0), Part("class_twins", strategy=lambda t: S.class_twin_spec().map(lambda s_: {"model": s_, "points": None, "obj": [], "tier": t}), check=check, quick=(1, 300), thorough=(2, 3000))] + [Part("bounding%d" % i, enumerate_cases=(lambda t, i=i: ({"model": s_, "points": None, "obj": [], "tier": "quick"} for s_ in S.bounding_shapes(i, 2))), check=check, time_quick=120.0) for i in range(2)] + [Part("mixed%d" % i, enumerate_cases=(lambda t, i=i: mixed(i, 8)), check=check, time_quick=150.0) for i in range(8)] + [Part("shapes%d" % i, enumerate_cases=(lambda t, i=i: shapes(i, 4)), check=check, time_quick=120.0) for i in range(4)] + [
+    return [Part("concat_names", enumerate_cases=(lambda t: ({"model": {"k": "Not", "c": [s_]}, "points": None, "obj": []} for s_ in __import__("vf.strategies", fromlist=["x"]).concat_shapes())), check=check, time_quick=150.0), Part("empty0", enumerate_cases=(lambda t: empty(0, 1)), check=check, time_quick=120.0), Part("class_twins", strategy=lambda t: S.class_twin_spec().map(lambda s_: {"model": s_, "points": None, "obj": [], "tier": t}), check=check, quick=(1, 300), thorough=(2, 3000))] + [Part("bounding%d" % i, enumerate_cases=(lambda t, i=i: ({"model": s_, "points": None, "obj": [], "tier": "quick"} for s_ in S.bounding_shapes(i, 2))), check=check, time_quick=120.0) for i in range(2)] + [Part("mixed%d" % i, enumerate_cases=(lambda t, i=i: mixed(i, 8)), check=check, time_quick=150.0) for i in range(8)] + [Part("shapes%d" % i, enumerate_cases=(lambda t, i=i: shapes(i, 4)), check=check, time_quick=120.0) for i in range(4)] + [
         Part("small", strategy=lambda t: _with_tier(case_strategy(t, "small"), t), check=check, quick=(6, 200), thorough=(12, 1500)),
         Part("large", strategy=lambda t: _with_tier(case_strategy(t, "large"), t), check=check, quick=(2, 80), thorough=(4, 500)),
         Part("huge", strategy=lambda t: _with_tier(case_strategy(t, "huge"), t), check=check, quick=(1, 80), thorough=(2, 500)),
